@@ -133,4 +133,21 @@ def grid(thorough: bool = False):
         for start in ("today", "month", "year", "now", "epoch"):
             out.append(case("live", "bbb", "hand_made.mpd", {"start": start, "depth": "60", "leeway": "0"}, now=now))
         out.append(case("live", "bbb", "manifest_e.mpd", dict(RICH, start="today"), now=now))
+    # 6. values whose URL form the manifest *computes* from stream/track properties (time of day -> segment
+    #    number): streams whose timing reference is the video, the audio and the text track, several stream
+    #    ages (the numbering of two tracks drifts apart with age), every injection option; the oracle
+    #    computes the number independently from the track the option applies to
+    import datetime
+    for stream in ("bbb", "bbbaref", "bbbtref"):
+        for now, ages in ((NOW, (90, 66 * 60, 5 * 3600, None)), ("2024-02-29T23:59:59Z", (None, 12 * 3600))):
+            n = datetime.datetime.strptime(now, "%Y-%m-%dT%H:%M:%SZ")
+            tod = lambda back: (n - datetime.timedelta(seconds=back)).strftime("%H:%M:%SZ")   # noqa: E731
+            for age in ages:
+                start = "today" if age is None else (n - datetime.timedelta(seconds=age)).strftime("%Y-%m-%dT%H:%M:%SZ")
+                out.append(case("live", stream, "hand_made.mpd", {
+                    "start": start, "depth": "60", "verr": f"503={tod(27)},404=3", "vcorrupt": f"{tod(19)},5",
+                    "aerr": f"404={tod(23)}", "terr": f"410={tod(29)}", "failures": "1", "frames": "2"}, now=now))
+        out.append(case("live", stream, "manifest_n.mpd", {"start": "today", "depth": "120", "verr": "503=07:07:42Z",
+                                                           "vcorrupt": "07:07:50Z", "aerr": "404=07:07:45Z"}))
+        out.append(case("vod", stream, "hand_made.mpd", {"verr": "503=07:07:42Z,404=3", "vcorrupt": "07:07:50Z,4"}))
     return out
